@@ -299,13 +299,13 @@ static std::string hidden()
 // same process and re-executing the choice prefix that leads to it (engine set-up + tear-down ~2 ms).  One child process per
 // *program* only, so that a crash of the kernel under test is confined to that program.
 static int SOCK[2]; static mc::Channel *APP, *CHK;
-static std::string transition_text(kernel::actor::ActorImpl* a)
+static std::string transition_text(kernel::actor::ActorImpl* a, int k = 0)
 {
   if (!a->simcall_.observer_) return "-";
   if (!getenv("VX_DECODE_MESS") && (dynamic_cast<kernel::actor::MessIputSimcall*>(a->simcall_.observer_) || dynamic_cast<kernel::actor::MessIgetSimcall*>(a->simcall_.observer_)))
     return "Mess(" + a->simcall_.observer_->to_string() + ")"; // decoding these hangs on the unchanged tree (C43): only done on request
   a->simcall_.observer_->serialize(*APP); a->get_memory_trace()->serialize(*APP); APP->send();
-  mc::TransitionPtr t = mc::deserialize_transition((unsigned)a->get_pid(), a->get_restart_count(), *CHK); t->deserialize_memory_tracker(*CHK);
+  mc::TransitionPtr t = mc::deserialize_transition((unsigned)a->get_pid(), k, *CHK); t->deserialize_memory_tracker(*CHK);
   return t->to_string(false);
 }
 static bool want_ttext = false, stateful = true; static long maxstates = 2000000;
@@ -350,7 +350,8 @@ static void teardown()
 }
 
 typedef std::vector<std::pair<long, int>> Path;
-static FILE* OUT;
+static FILE* OUT; static FILE* OUT_AGREE; static bool agree_mode = false;
+static void agree_check(kernel::actor::ActorImpl* a, int k, const std::vector<std::pair<long, int>>& cur, FILE* fo);
 static std::unordered_map<std::string, long> seen;
 static long n_states, n_trans, n_paths, n_exec, next_sid; static int aborted;
 static char* CURPATH; // shared page: the prefix being executed, so that the parent can name the schedule of a crash
@@ -383,7 +384,7 @@ static void explore_program(const Program& p, char* argv0)
       if (!a) { fprintf(OUT, "X replay-not-enabled %s\n", path_str(w.prefix).c_str()); aborted = 5; ok = false; break; }
       cur.push_back(w.prefix[i]); strncpy(CURPATH, path_str(cur).c_str(), 4000);
       handle(a, w.prefix[i].second);
-      if (i + 1 == w.prefix.size()) { n_trans++; if (want_ttext) tt = transition_text(a); }
+      if (i + 1 == w.prefix.size()) { n_trans++; if (agree_mode) agree_check(a, w.prefix[i].second, cur, OUT_AGREE); if (want_ttext) tt = transition_text(a, w.prefix[i].second); }
       quiesce();
     }
     // 2. walk on with the first choice until a known state or a terminal one
@@ -406,7 +407,8 @@ static void explore_program(const Program& p, char* argv0)
       from = sid; lab = {ch[0].first->get_pid(), ch[0].second};
       cur.push_back(lab); strncpy(CURPATH, path_str(cur).c_str(), 4000);
       handle(ch[0].first, ch[0].second); n_trans++;
-      tt = want_ttext ? transition_text(ch[0].first) : std::string();
+      if (agree_mode) agree_check(ch[0].first, ch[0].second, cur, OUT_AGREE);
+      tt = want_ttext ? transition_text(ch[0].first, ch[0].second) : std::string();
       quiesce();
     }
     teardown();
@@ -414,12 +416,18 @@ static void explore_program(const Program& p, char* argv0)
 }
 
 // ------------------------------------------------------------------------------------------------ complete executions (C40, C42)
-static mc::TransitionPtr transition_obj(kernel::actor::ActorImpl* a)
+static mc::TransitionPtr transition_obj_unguarded(kernel::actor::ActorImpl* a, int k)
+{
+  a->simcall_.observer_->serialize(*APP); a->get_memory_trace()->serialize(*APP); APP->send();
+  mc::TransitionPtr t = mc::deserialize_transition((unsigned)a->get_pid(), k, *CHK); t->deserialize_memory_tracker(*CHK);
+  return t;
+}
+static mc::TransitionPtr transition_obj(kernel::actor::ActorImpl* a, int k)
 {
   if (dynamic_cast<kernel::actor::MessIputSimcall*>(a->simcall_.observer_) || dynamic_cast<kernel::actor::MessIgetSimcall*>(a->simcall_.observer_)) {
     fprintf(stderr, "vx: message-queue transitions cannot be decoded (C43): not usable in this mode\n"); _exit(7); }
   a->simcall_.observer_->serialize(*APP); a->get_memory_trace()->serialize(*APP); APP->send();
-  mc::TransitionPtr t = mc::deserialize_transition((unsigned)a->get_pid(), a->get_restart_count(), *CHK); t->deserialize_memory_tracker(*CHK);
+  mc::TransitionPtr t = mc::deserialize_transition((unsigned)a->get_pid(), k, *CHK); t->deserialize_memory_tracker(*CHK);
   return t;
 }
 struct ExecStats { long nexec = 0, hb_pairs = 0, hb_bad = 0, race_sets = 0, race_bad = 0, asym = 0; std::vector<std::string> notes; };
@@ -477,7 +485,7 @@ template <class F> static bool all_executions(const Program& p, char* argv0, lon
         if (pick == ch.size()) { fprintf(stderr, "vx: replay divergence in all_executions\n"); _exit(6); } }
       else for (size_t i = ch.size(); i-- > 1;) { Path np = cur; np.push_back({ch[i].first->get_pid(), ch[i].second}); stack.push_back(np); }
       cur.push_back({ch[pick].first->get_pid(), ch[pick].second}); strncpy(CURPATH, path_str(cur).c_str(), 4000);
-      handle(ch[pick].first, ch[pick].second); ts.push_back(transition_obj(ch[pick].first)); quiesce();
+      handle(ch[pick].first, ch[pick].second); ts.push_back(transition_obj(ch[pick].first, ch[pick].second)); quiesce();
     }
     f(ts, cur);
     teardown();
@@ -494,6 +502,101 @@ static void classes_program(const Program& p, char* argv0, long maxexec, FILE* f
   for (auto& c : classes) fprintf(fo, "K %zx\n", std::hash<std::string>{}(c));
 }
 
+// ------------------------------------------------------------------------------------------------ encoder / decoder agreement (C43)
+#include "src/mc/transition/TransitionSynchro.hpp"
+#include "src/mc/transition/TransitionComm.hpp"
+#include "src/mc/transition/TransitionActor.hpp"
+#include "src/mc/transition/TransitionAny.hpp"
+#include "src/mc/transition/TransitionRandom.hpp"
+static std::map<std::string, long> agree_types; static long agree_bad = 0, agree_n = 0;
+static std::string T(mc::Transition::Type t) { return mc::Transition::to_c_str(t); }
+static std::string describe_comm(const char* what, kernel::activity::CommImpl* c, bool timeout)
+{ return std::string(what) + " comm=" + std::to_string(c->get_id()) + " mbox=" + std::to_string(c->get_mailbox_id()) + " src=" + std::to_string(c->src_actor_ ? c->src_actor_->get_pid() : -1) +
+         " dst=" + std::to_string(c->dst_actor_ ? c->dst_actor_->get_pid() : -1) + (timeout ? " timeout" : ""); }
+// what the application encoded: read from the observer object itself (never through serialize())
+static std::string describe_obs(kernel::actor::SimcallObserver* o, int k)
+{
+  using namespace kernel::actor;
+  if (auto* x = dynamic_cast<MutexObserver*>(o)) return T(x->type_) + " mutex=" + std::to_string(x->mutex_->get_id());
+  if (auto* x = dynamic_cast<MutexAcquisitionObserver*>(o)) return T(x->type_) + " mutex=" + std::to_string(x->acquisition_->get_mutex()->get_id());
+  if (auto* x = dynamic_cast<SemaphoreObserver*>(o)) return T(x->type_) + " sem=" + std::to_string(x->sem_->get_id());
+  if (auto* x = dynamic_cast<SemaphoreAcquisitionObserver*>(o)) return T(x->type_) + " sem=" + std::to_string(x->acquisition_->semaphore_->get_id()) + (x->acquisition_->granted_ ? " granted" : "");
+  if (auto* x = dynamic_cast<BarrierObserver*>(o)) return T(x->type_) + " bar=" + std::to_string(x->barrier_ ? x->barrier_->get_id() : x->acquisition_->barrier_->get_id());
+  if (auto* x = dynamic_cast<ConditionVariableObserver*>(o)) { std::string r = T(x->type_) + " cond=" + std::to_string(x->cond_->get_id());
+    if (x->type_ == mc::Transition::Type::CONDVAR_ASYNC_LOCK || x->type_ == mc::Transition::Type::CONDVAR_WAIT) r += " mutex=" + std::to_string(x->mutex_->get_id());
+    if (x->type_ == mc::Transition::Type::CONDVAR_WAIT) r += std::string(x->acquisition_->granted_ ? " granted" : "") + (x->timeout_ > 0 ? " timeout" : "");
+    return r; }
+  if (auto* x = dynamic_cast<CommIsendSimcall*>(o)) return "COMM_ASYNC_SEND comm=" + std::to_string(x->comm_ ? x->comm_->get_id() : 0) + " mbox=" + std::to_string(x->mbox_->get_id());
+  if (auto* x = dynamic_cast<CommIrecvSimcall*>(o)) return "COMM_ASYNC_RECV comm=" + std::to_string(x->comm_ ? x->comm_->get_id() : 0) + " mbox=" + std::to_string(x->mbox_->get_id());
+  if (auto* x = dynamic_cast<ActivityWaitSimcall*>(o)) { if (auto* c = dynamic_cast<kernel::activity::CommImpl*>(x->activity_)) return describe_comm("COMM_WAIT", c, x->timeout_ > 0); return "WAIT-ON-NON-COMM"; }
+  if (auto* x = dynamic_cast<ActivityTestSimcall*>(o)) { if (auto* c = dynamic_cast<kernel::activity::CommImpl*>(x->activity_)) return describe_comm("COMM_TEST", c, false); return "TEST-ON-NON-COMM"; }
+  if (auto* x = dynamic_cast<ActivityWaitanySimcall*>(o)) { std::string r = "WAITANY n=" + std::to_string(x->activities_.size());
+    if (k < (int)x->indexes_.size()) if (auto* c = dynamic_cast<kernel::activity::CommImpl*>(x->activities_[x->indexes_[k]])) r += " current={" + describe_comm("COMM_WAIT", c, false) + "}"; return r; }
+  if (auto* x = dynamic_cast<ActivityTestanySimcall*>(o)) { std::string r = "TESTANY n=" + std::to_string(x->activities_.size());
+    if (k < (int)x->indexes_.size()) if (auto* c = dynamic_cast<kernel::activity::CommImpl*>(x->activities_[x->indexes_[k]])) r += " current={" + describe_comm("COMM_TEST", c, false) + "}"; return r; }
+  if (auto* x = dynamic_cast<ActorJoinSimcall*>(o)) return "ACTOR_JOIN target=" + std::to_string(x->other_->get_pid()) + (x->timeout_ > 0 ? " timeout" : "");
+  if (auto* x = dynamic_cast<ActorCreateSimcall*>(o)) return "ACTOR_CREATE child=" + std::to_string(x->child_);
+  if (dynamic_cast<ActorSleepSimcall*>(o)) return "ACTOR_SLEEP";
+  if (dynamic_cast<ActorExitSimcall*>(o)) return "ACTOR_EXIT";
+  if (auto* x = dynamic_cast<RandomSimcall*>(o)) return "RANDOM min=" + std::to_string(x->min_) + " max=" + std::to_string(x->max_);
+  if (auto* x = dynamic_cast<MessIputSimcall*>(o)) return "MESS_ASYNC_PUT queue=" + x->queue_->get_name();
+  if (auto* x = dynamic_cast<MessIgetSimcall*>(o)) return "MESS_ASYNC_GET queue=" + x->queue_->get_name();
+  return "?" + o->to_string();
+}
+static std::string describe_sub(const mc::Transition* t)
+{
+  if (auto* x = dynamic_cast<const mc::CommWaitTransition*>(t)) return "COMM_WAIT comm=" + std::to_string(x->comm_) + " mbox=" + std::to_string(x->mbox_) + " src=" + std::to_string((long)x->sender_.c_val()) + " dst=" + std::to_string((long)x->receiver_.c_val()) + (x->timeout_ ? " timeout" : "");
+  if (auto* x = dynamic_cast<const mc::CommTestTransition*>(t)) return "COMM_TEST comm=" + std::to_string(x->comm_) + " mbox=" + std::to_string(x->mbox_) + " src=" + std::to_string((long)x->sender_.c_val()) + " dst=" + std::to_string((long)x->receiver_.c_val());
+  return "?" + t->to_string(false);
+}
+// what the checker decoded: read from the fields of the deserialised Transition
+static std::string describe_tr(const mc::Transition* t)
+{
+  using Ty = mc::Transition::Type;
+  if (auto* x = dynamic_cast<const mc::MutexTransition*>(t)) return T(x->type_) + " mutex=" + std::to_string(x->mutex_);
+  if (auto* x = dynamic_cast<const mc::SemaphoreTransition*>(t)) return T(x->type_) + " sem=" + std::to_string(x->sem_) + (x->type_ == Ty::SEM_WAIT && x->granted_ ? " granted" : "");
+  if (auto* x = dynamic_cast<const mc::BarrierTransition*>(t)) return T(x->type_) + " bar=" + std::to_string(x->bar_);
+  if (auto* x = dynamic_cast<const mc::CondvarTransition*>(t)) { std::string r = T(x->type_) + " cond=" + std::to_string(x->condvar_);
+    if (x->type_ == Ty::CONDVAR_ASYNC_LOCK || x->type_ == Ty::CONDVAR_WAIT) r += " mutex=" + std::to_string(x->mutex_);
+    if (x->type_ == Ty::CONDVAR_WAIT) r += std::string(x->granted_ ? " granted" : "") + (x->timeout_ ? " timeout" : "");
+    return r; }
+  if (auto* x = dynamic_cast<const mc::CommSendTransition*>(t)) return "COMM_ASYNC_SEND comm=" + std::to_string(x->comm_) + " mbox=" + std::to_string(x->mbox_);
+  if (auto* x = dynamic_cast<const mc::CommRecvTransition*>(t)) return "COMM_ASYNC_RECV comm=" + std::to_string(x->comm_) + " mbox=" + std::to_string(x->mbox_);
+  if (dynamic_cast<const mc::CommWaitTransition*>(t) || dynamic_cast<const mc::CommTestTransition*>(t)) return describe_sub(t);
+  if (auto* x = dynamic_cast<const mc::WaitAnyTransition*>(t)) return "WAITANY n=" + std::to_string(x->transitions_.size()) + " current={" + describe_sub(x->get_current_transition()) + "}";
+  if (auto* x = dynamic_cast<const mc::TestAnyTransition*>(t)) { std::string r = "TESTANY n=" + std::to_string(x->transitions_.size());
+    if (x->times_considered_ < (int)x->transitions_.size()) r += " current={" + describe_sub(x->transitions_.at(x->times_considered_)) + "}"; return r; }
+  if (auto* x = dynamic_cast<const mc::ActorJoinTransition*>(t)) return "ACTOR_JOIN target=" + std::to_string(x->target_.value()) + (x->timeout_ ? " timeout" : "");
+  if (auto* x = dynamic_cast<const mc::ActorCreateTransition*>(t)) return "ACTOR_CREATE child=" + std::to_string(x->child_.value());
+  if (dynamic_cast<const mc::ActorSleepTransition*>(t)) return "ACTOR_SLEEP";
+  if (dynamic_cast<const mc::ActorExitTransition*>(t)) return "ACTOR_EXIT";
+  if (auto* x = dynamic_cast<const mc::RandomTransition*>(t)) return "RANDOM min=" + std::to_string(x->min_) + " max=" + std::to_string(x->max_);
+  return "?" + T(t->type_) + " " + t->to_string(false);
+}
+// decode in a child process under a watchdog: a decoder that blocks or crashes must not take the explorer down
+static std::string guarded_decode(kernel::actor::ActorImpl* a, int k)
+{
+  int pfd[2]; if (pipe(pfd)) return "pipe-failed";
+  pid_t c = fork();
+  if (c == 0) { close(pfd[0]); alarm(3); mc::TransitionPtr t = transition_obj_unguarded(a, k); std::string d = describe_tr(t.get()) + " aid=" + std::to_string(t->aid_.value()); (void)!write(pfd[1], d.data(), d.size()); _exit(0); }
+  close(pfd[1]); std::string d; char buf[512]; ssize_t n; while ((n = read(pfd[0], buf, sizeof buf)) > 0) d.append(buf, n); close(pfd[0]);
+  int st; waitpid(c, &st, 0);
+  if (WIFSIGNALED(st)) return WTERMSIG(st) == SIGALRM ? "DECODER-HANGS (killed after 3 s)" : "DECODER-CRASHES (signal " + std::to_string(WTERMSIG(st)) + ")";
+  if (!WIFEXITED(st) || WEXITSTATUS(st)) return "DECODER-FAILS (status " + std::to_string(st) + ")";
+  return d;
+}
+static void agree_check(kernel::actor::ActorImpl* a, int k, const Path& cur, FILE* fo)
+{
+  if (!a->simcall_.observer_) return;
+  std::string od = describe_obs(a->simcall_.observer_, k) + " aid=" + std::to_string(a->get_pid());
+  bool risky = dynamic_cast<kernel::actor::MessIputSimcall*>(a->simcall_.observer_) || dynamic_cast<kernel::actor::MessIgetSimcall*>(a->simcall_.observer_) || getenv("VX_GUARD_ALL");
+  std::string td;
+  if (risky) td = guarded_decode(a, k);   // a decoder known to block: tried in a child under a watchdog
+  else { mc::TransitionPtr t = transition_obj_unguarded(a, k); td = describe_tr(t.get()) + " aid=" + std::to_string(t->aid_.value()); }
+  std::string ty = od.substr(0, od.find(' ')); agree_types[ty]++; agree_n++;
+  if (od != td) { agree_bad++; fprintf(fo, "V disagree|%s|%s|%s\n", path_str(cur).c_str(), od.c_str(), td.c_str()); }
+}
+
 // ------------------------------------------------------------------------------------------------ commutation of independent pairs (C39)
 struct PairRun { bool ok = false, second_enabled = false; mc::TransitionPtr t1, t2; std::string fp; };
 static PairRun run_pair(const Program& p, char* argv0, const Path& prefix, std::pair<long, int> x, std::pair<long, int> y)
@@ -504,9 +607,9 @@ static PairRun run_pair(const Program& p, char* argv0, const Path& prefix, std::
   for (auto& st : prefix) { auto* a = find(st); if (!a) { teardown(); return r; } handle(a, st.second); quiesce(); }
   auto* ax = find(x); if (!ax || !find(y)) { teardown(); return r; }
   r.ok = true;
-  handle(ax, x.second); r.t1 = transition_obj(ax); quiesce();
+  handle(ax, x.second); r.t1 = transition_obj(ax, x.second); quiesce();
   auto* ay = find(y);
-  if (ay) { r.second_enabled = true; handle(ay, y.second); r.t2 = transition_obj(ay); quiesce(); auto en = enabled_list(); r.fp = canonical() + hidden() + enabled_str(en); }
+  if (ay) { r.second_enabled = true; handle(ay, y.second); r.t2 = transition_obj(ay, y.second); quiesce(); auto en = enabled_list(); r.fp = canonical() + hidden() + enabled_str(en); }
   teardown();
   return r;
 }
@@ -569,7 +672,7 @@ int main(int argc, char** argv)
       long aid = atol(tok.c_str()); int k = tok.find('/') != std::string::npos ? atoi(tok.c_str() + tok.find('/') + 1) : 0;
       kernel::actor::ActorImpl* a = nullptr; for (auto& x : en) if (x.a->get_pid() == aid && k < x.maxc) a = x.a;
       if (!a) { printf("NOT-ENABLED %s\n", tok.c_str()); fflush(stdout); _exit(4); }
-      handle(a, k); std::string tt = transition_text(a); quiesce(); step++;
+      handle(a, k); std::string tt = transition_text(a, k); quiesce(); step++;
       printf("T %s %s\n", tok.c_str(), tt.c_str()); fflush(stdout);
     }
     fflush(stdout); _exit(0);
@@ -585,9 +688,10 @@ int main(int argc, char** argv)
         size_t e = sched.find(';', pos); std::string tok = sched.substr(pos, e == std::string::npos ? std::string::npos : e - pos); pos = e == std::string::npos ? sched.size() : e + 1;
         if (tok.empty()) continue;
         long aid = atol(tok.c_str()); int k = tok.find('/') != std::string::npos ? atoi(tok.c_str() + tok.find('/') + 1) : 0;
-        auto en = enabled_list(); kernel::actor::ActorImpl* a = nullptr; for (auto& x : en) if (x.a->get_pid() == aid && k < x.maxc) a = x.a;
+        auto en = enabled_list(); kernel::actor::ActorImpl* a = nullptr;
+        for (auto& x : en) if (x.a->get_pid() == aid) { if (x.maxc == 1) k = 0; /* a transition without alternatives ignores the value the checker sends along */ if (k < x.maxc) a = x.a; }
         if (!a) { ok = false; break; }
-        cur.push_back({aid, k}); handle(a, k); ts.push_back(transition_obj(a)); quiesce();
+        cur.push_back({aid, k}); handle(a, k); ts.push_back(transition_obj(a, k)); quiesce();
       }
       bool terminal = enabled_list().empty();
       printf("%s %zx %d %zu\n", ok ? "OK" : "NOT-ENABLED", std::hash<std::string>{}(foata(ts, cur)), terminal ? 1 : 0, ts.size()); fflush(stdout);
@@ -595,7 +699,7 @@ int main(int argc, char** argv)
     }
     _exit(0);
   }
-  bool classes_mode = mode == "classes", pairs_mode = mode == "pairs";
+  bool classes_mode = mode == "classes", pairs_mode = mode == "pairs"; agree_mode = mode == "agree";
   // explore
   const char* out = argv[3];
   if (argc > 4) stateful = std::string(argv[4]) != "stateless";
@@ -617,7 +721,9 @@ int main(int argc, char** argv)
         if (deadline > 0 && (double)time(nullptr) > deadline) { fprintf(fo, "R 0 0 0 SKIP\n"); continue; }
         seen.clear(); n_states = n_trans = n_paths = n_exec = next_sid = 0; aborted = 0;
         if (classes_mode) { classes_program(progs[i], argv[0], maxstates, fo); fprintf(fo, "R 0 0 0 OK 0\n"); fflush(fo); continue; }
-        if (pairs_mode) { FILE* keep = OUT; OUT = fopen("/dev/null", "w"); pairs_program(progs[i], argv[0], fo); fclose(OUT); OUT = keep; }
+        if (agree_mode) { FILE* keep = OUT; OUT = fopen("/dev/null", "w"); OUT_AGREE = fo; agree_types.clear(); agree_bad = agree_n = 0; explore_program(progs[i], argv[0]); fclose(OUT); OUT = keep;
+          fprintf(fo, "I %ld %ld\n", agree_n, agree_bad); for (auto& [t, n] : agree_types) fprintf(fo, "L %s %ld\n", t.c_str(), n); }
+        else if (pairs_mode) { FILE* keep = OUT; OUT = fopen("/dev/null", "w"); pairs_program(progs[i], argv[0], fo); fclose(OUT); OUT = keep; }
         else explore_program(progs[i], argv[0]);
         fprintf(fo, "R %ld %ld %ld %s %ld\n", n_paths, n_states, n_trans, aborted ? ("ABORT" + std::to_string(aborted)).c_str() : "OK", n_exec);
         fflush(fo);
